@@ -10,7 +10,7 @@ DESCRIPTION = {
              "on/off, whether the caller registry knows the class, and synchronous vs asynchronous (pending result failed later) endpoints.  Oracle: on the wire the ERROR carries "
              "the registered / carried / generic runtime-error URI, args == list(exc.args), kwargs == the exception's kwargs (+ 'traceback' iff enabled); the caller's pending call "
              "fails exactly once with an instance of the class registered for that URI built from those args/kwargs, else with ApplicationError carrying URI, args and kwargs; the "
-             "error is never lost.  The caller may map the class to a second (alias) URI before or after.  A third of the cases run with a payload codec (cryptobox keyring) on both peers.  Non-trivial = non-empty args and kwargs with a registered class, or a fallback path; distinct by (kind, payload shape, serializer). Error URIs include ones only the loose WAMP rule admits (upper case, hyphens, non-ASCII; for decorated / defined classes hyphens and underscores, as uri.Pattern allows)."),
+             "error is never lost.  The caller may map the class to a second (alias) URI before or after.  A third of the cases run with a payload codec (cryptobox keyring) on both peers.  Non-trivial = non-empty args and kwargs with a registered class, or a fallback path; distinct by (kind, payload shape, serializer). Error URIs include ones only the loose WAMP rule admits (upper case, hyphens, non-ASCII; for decorated / defined classes hyphens and underscores, as uri.Pattern allows). For explicitly defined classes half of the cases raise the class once *before* define() (generic URI), then define it and raise it again: the second ERROR carries the registered URI."),
     "assumptions": ["kwargs keys that ApplicationError/CallResult reserve for metadata (enc_algo, callee, callee_authid, callee_authrole, forward_for) are not generated as application kwargs; an application "
                     "error that already carries a 'traceback' kwarg is generated: with traceback forwarding on the forwarded traceback replaces it, otherwise it travels unchanged"],
 }
@@ -84,7 +84,8 @@ def strategy():
                                 "com.myapp.error.NotFound", "com.my-app.error.not-found", "com.myapp.érreur.naïve", "COM.X.E_1"]),
         "args": vals, "kwargs": kws, "tb": st.booleans(), "caller_knows": st.booleans(), "async_endpoint": st.booleans(),
         "ser": st.sampled_from(["json", "msgpack", "cbor", "ubjson"]), "own_tb": st.sampled_from([False, False, False, True]),
-        "check_types": st.sampled_from([False, False, True]), "alias": st.sampled_from([None, None, "before", "after"]), "codec": st.sampled_from([False, False, True])})      # the procedure is registered with check_types=True (the library wraps the endpoint)
+        "check_types": st.sampled_from([False, False, True]), "alias": st.sampled_from([None, None, "before", "after"]), "codec": st.sampled_from([False, False, True]),
+        "raise_before_define": st.sampled_from([False, True])})      # the procedure is registered with check_types=True (the library wraps the endpoint)
 
 
 def check_flow(c):
@@ -138,6 +139,20 @@ def check_flow(c):
                 return cls(*args, **kwargs)
         elif kind in ("defined", "nokwargs", "onearg", "exploding"):
             cls = classes[{"defined": "Defined", "nokwargs": "NoKwargs", "onearg": "OneArg", "exploding": "Exploding"}[kind]]
+            if c.get("raise_before_define"):
+                # history: the class is raised once while it is still unknown to the session (goes out under the generic URI), is defined
+                # afterwards, and is raised again - the second error must carry the URI registered meanwhile
+                def warm(*a, **k):
+                    raise cls("early")
+                tr0 = callee.track(callee.call(lambda: callee.session.register(warm, "com.x.warm")))
+                callee.feed(M.Registered(callee.t.sent[-1].request, 556))
+                n_w = len(callee.t.sent)
+                err_w = callee.feed(M.Invocation(9000, 556, args=[]))
+                out_w = callee.t.sent[n_w:]
+                if err_w is not None or len(out_w) != 1 or type(out_w[0]).__name__ != "Error":
+                    raise Violation("C18|error-not-sent-once", "warm-up: %r / %r" % (err_w, [type(m).__name__ for m in out_w]), c)
+                if out_w[0].error != "wamp.error.runtime_error":
+                    raise Violation("C18|wire-uri-differs|undefined-before-define", "ERROR carries %r for a class not yet defined" % (out_w[0].error,), c)
             callee.session.define(cls, uri)
             if kind == "nokwargs":
                 kwargs = {}
